@@ -1271,6 +1271,13 @@ func (a *Agent) ToMap() map[string]interface{} {
 
 	Info["Info"].(map[string]interface{})["Listener"] = nil
 
+	// the links are given by name, like the parent
+	var Links = make([]string, 0, len(a.Pivots.Links))
+	for _, link := range a.Pivots.Links {
+		Links = append(Links, link.NameID)
+	}
+	Info["Pivots"].(map[string]interface{})["Links"] = Links
+
 	delete(Info, "Connection")
 	delete(Info, "SessionDir")
 	delete(Info, "JobQueue")
